@@ -144,7 +144,11 @@ func RunInterleave(c *sim.Ctx, prop string) {
 	switchPm := []int{50, 200, 500, 900}[knob("switch_permille", 0, 3)]
 	pct := knob("priority_schedule", 0, 2) == 0
 	pctDepth := knob("priority_change_points", 1, 4)
-	c.ProbeDecl("underlying_read_through_kept_handle", "race_report", "history_checked_by_porcupine", "porcupine_inconclusive", "context_switches_over_20", "timer_fired", "blocked_task_woken")
+	// reach probes ("this condition was met"); race reports and inconclusive histories are counted, not declared
+	c.ProbeDecl("history_checked_by_porcupine", "context_switches_over_20")
+	if prop == "C28" {
+		c.ProbeDecl("underlying_read_through_kept_handle", "timer_fired", "blocked_task_woken")
+	}
 
 	// ---- plan: per task a list of ops, drawn up front ----
 	plans := make([][]sim.Op, nTasks)
@@ -236,7 +240,7 @@ func RunInterleave(c *sim.Ctx, prop string) {
 		c.Violation("panic", "panic/"+compNames[comp], "%s: a task panicked: %v", compNames[comp], ss.Panics[0])
 	}
 	if rep := newRaceReports(); strings.Contains(rep, "DATA RACE") {
-		c.Probe("race_report")
+		c.Count("race_reports", 1)
 		first := rep
 		if i := strings.Index(rep[10:], "=================="); i > 0 {
 			first = rep[:i+10]
@@ -275,7 +279,7 @@ func RunInterleave(c *sim.Ctx, prop string) {
 		case porcupine.Ok:
 			c.Probe("history_checked_by_porcupine")
 		case porcupine.Unknown:
-			c.Probe("porcupine_inconclusive")
+			c.Count("porcupine_inconclusive", 1)
 		case porcupine.Illegal:
 			inconclusive := false
 			sig := "linearizability/" + compNames[comp]
@@ -322,7 +326,7 @@ func RunInterleave(c *sim.Ctx, prop string) {
 				}
 			}
 			if inconclusive {
-				c.Probe("porcupine_inconclusive")
+				c.Count("porcupine_inconclusive", 1)
 				return
 			}
 			c.Violation("linearizability", sig, "%s: the recorded history has no sequential explanation that respects the order of non-overlapping calls:\n%s", compNames[comp], fmtHistory(hist))
